@@ -358,9 +358,20 @@ def h_upload(size: int, n: int, o1: int, l1: int, o2: int, l2: int, b2: bool, o3
     pre: 0 <= o1 and B["ln_min"] <= l1 <= B["ln_max"] and 0 <= o2 and B["ln_min"] <= l2 <= B["ln_max"] and 0 <= o3 and B["ln_min"] <= l3 <= B["ln_max"]
     pre: B.get("shape") is None or _shape(o1, l1, o2, l2) == B["shape"]
     pre: B.get("l1_min") is None or l1 >= B["l1_min"]
+    pre: B.get("third") != "from-end-of-second" or o3 == o2 + l2
+    pre: B.get("fits") is None or o1 + l1 <= size
+    pre: B.get("complete") is None or (_span2(o1, l1, o2, l2) == size) == (B["complete"] == 1)
+    pre: B.get("probe") is None or (p < (o1 if o1 < o2 else o2)) == (B["probe"] == 0)
     post: _ == True
     """
     return X.guard(_h_upload, size, n, o1, l1, o2, l2, b2, o3, l3, b3, has1, p)
+
+
+def _span2(o1, l1, o2, l2):
+    """length of the union of two overlapping or touching chunks"""
+    lo = o1 if o1 < o2 else o2
+    hi = o1 + l1 if o1 + l1 > o2 + l2 else o2 + l2
+    return hi - lo
 
 
 def _shape(o1, l1, o2, l2):
@@ -1104,7 +1115,7 @@ def _with_real_headers(fn, *args):
 
 def h_read_strings(mutable: bool, dlen: int, off: int, ln: int) -> bool:
     """
-    pre: 0 <= dlen <= B["d_max"] and 0 <= off <= B["d_max"] + 1 and 0 <= ln <= B["l_max"]
+    pre: 0 <= dlen <= B["d_max"] and 0 <= off <= B["d_max"] + 1 and B.get("l_min", 0) <= ln <= B["l_max"]
     post: _ == True
     """
     return X.guard(_h_read_strings, mutable, dlen, off, ln)
@@ -1112,7 +1123,7 @@ def h_read_strings(mutable: bool, dlen: int, off: int, ln: int) -> bool:
 
 def _h_read_strings(mutable, dlen, off, ln):
     mutable = bool(mutable)
-    dlen, off, ln = _pin(dlen, 0, B["d_max"]), _pin(off, 0, B["d_max"] + 1), _pin(ln, 0, B["l_max"])
+    dlen, off, ln = _pin(dlen, 0, B["d_max"]), _pin(off, 0, B["d_max"] + 1), _pin(ln, B.get("l_min", 0), B["l_max"])
     assume(("zero-length-read" if ln == 0 else "other") not in EXCLUDED)
     return _with_real_headers(_read_strings_concrete, mutable, dlen, off, ln)
 
@@ -1158,7 +1169,7 @@ def _read_strings_concrete(mutable, dlen, off, ln):
 
 def h_upload_strings(size: int, o1: int, l1: int, o2: int, l2: int, b2: bool) -> bool:
     """
-    pre: 1 <= size <= B["d_max"] and 0 <= o1 <= B["d_max"] and 0 <= l1 <= B["l_max"] and 0 <= o2 <= B["d_max"] and 0 <= l2 <= B["l_max"]
+    pre: 1 <= size <= B["d_max"] and 0 <= o1 <= B["d_max"] and B.get("l_min", 0) <= l1 <= B["l_max"] and 0 <= o2 <= B["d_max"] and B.get("l_min", 0) <= l2 <= B["l_max"]
     post: _ == True
     """
     return X.guard(_h_upload_strings, size, o1, l1, o2, l2, b2)
@@ -1166,7 +1177,7 @@ def h_upload_strings(size: int, o1: int, l1: int, o2: int, l2: int, b2: bool) ->
 
 def _h_upload_strings(size, o1, l1, o2, l2, b2):
     size, o1, o2 = _pin(size, 1, B["d_max"]), _pin(o1, 0, B["d_max"]), _pin(o2, 0, B["d_max"])
-    l1, l2 = _pin(l1, 0, B["l_max"]), _pin(l2, 0, B["l_max"])
+    l1, l2 = _pin(l1, B.get("l_min", 0), B["l_max"]), _pin(l2, B.get("l_min", 0), B["l_max"])
     b2 = bool(b2)
     assume(_cls_upload(size, _chunks(2, o1, l1, o2, l2, b2, 0, 1, False)) not in EXCLUDED)
     return _with_real_headers(_upload_strings_concrete, size, o1, l1, o2, l2, b2)
